@@ -161,6 +161,8 @@ def gen_quant(rng):
         else:
             hi = lo + rng.choice([0, 1, 2]) if rng.random() > 0.07 else max(0, lo - 1)
             q = "{%d,%d}" % (lo, hi); mult = max(hi, 1)
+    if rng.random() < 0.12:
+        q = re.sub(r"\d+", lambda m: rng.choice(["0", "00"]) + m.group(0), q)      # bounds written with leading zeros are decimal all the same
     if rng.random() < 0.15:
         q += "?"
     return q, mult
@@ -236,7 +238,7 @@ def construct_corpus():
            "\\", "\\a", "\\n", "\\t", "\\/", "\\x", "\\x4", "\\x41", "\\x4g", "\\x414", "\\x4142", "\\x41424", "\\x41424344", "\\x414243445", "\\xFFFFFFFF", "\\x80000000", "\\x0000", "\\x00",
            "[\\x41-\\x43]", "[\\x0041-\\x0043]", "[\\x00FF]", "[^\\x00FF]", "[\\p{Greek}]", "[^\\p{Greek}a]", "[\\d-z]", "[a-\\d]", "[[:alpha:]]", "[^[:alpha:]0]", "[[:alpha:][:digit:]_]",
            "[:alpha:]", "[:alpha:]+", "[:nope:]", "\\p{L}", "\\P{L}", "\\p{Nope}", "\\p{Lu", "\\pL", "é", "a é", "[é]", ".{2,3}", "\\D{2}", "[^a]{0,2}b", ".*a", "(.|a)*", "\\S+\\s\\S+",
-           "a{01}", "a{1,02}", "a{,2}", "a{}", "a{1,2", "a{1 ,2}", "{1}", "a{2}{0}"]
+           "a{01}", "a{1,02}", "a{08}", "a{1,09}", "a{010,9}", "a{011,10}", "a{10,010}", "(a|b){0012,11}?", "a{007}", "a{0x2}", "a{,2}", "a{}", "a{1,2", "a{1 ,2}", "{1}", "a{2}{0}"]
     out += CLASSES + ASCII_CLASSES + UNI + UNI_BIG + ["\\" + c for c in ESCAPED] + list(ESCAPED) + HEX
     out += ["[" + c + "]" for c in CLASSES + ASCII_CLASSES + UNI] + ["[^" + c + "]" for c in CLASSES + ASCII_CLASSES]
     return out
